@@ -13,10 +13,10 @@ PROP = dict(
               "Pops.C06_read_seeds_malformed"],
     commands=["rng.*"],
     runs={
-        "quick": [("h_stream", "twice", 0, 300), ("h_stream", "uses", 0, 300), ("h_stream", "vary", 0, 150),
-                  ("h_stream", "order", 0, 600), ("h_stream", "reject", 0, 800)],
-        "thorough": [("h_stream", "twice", 0, 10000), ("h_stream", "uses", 0, 10000), ("h_stream", "vary", 0, 4000),
-                     ("h_stream", "order", 0, 20000), ("h_stream", "reject", 0, 20000)],
+        "quick": [("h_stream", "twice", 0, 400), ("h_stream", "uses", 0, 400), ("h_stream", "vary", 0, 200),
+                  ("h_stream", "order", 0, 800), ("h_stream", "reject", 0, 800)],
+        "thorough": [("h_stream", "twice", 0, 40000), ("h_stream", "uses", 0, 40000), ("h_stream", "vary", 0, 12000),
+                     ("h_stream", "order", 0, 60000), ("h_stream", "reject", 0, 40000)],
     },
     exhaustive={"quick": False, "thorough": False},
     exhaustive_note={
